@@ -34,8 +34,8 @@ void vm_setup(void) {
 #ifdef OFFSET
   /* common symbolic offset on top/bottom (index arithmetic incl. negative / large indices) */
   uint64_t off = vm_nondet();
-  vm_assume(off == 0 || off == (uint64_t)-2 || off == ((uint64_t)1 << 62));
-  vm_assume((off & ((1ul << LOG) - 1)) == 0);
+  vm_assume(off == 0 || off == (uint64_t)-4 || off == (uint64_t)-8 || off == ((uint64_t)1 << 62));
+  vm_assume((off & (uint64_t)d->underlying_array->size_minus_one) == 0);   /* keeps the slot mapping of the entries pushed by vm_init (the array may have grown there) */
   d->top += off; d->bottom += off;
 #endif
 }
